@@ -6,7 +6,7 @@
 (* list) and the extracted values, and the documented order as a Less matrix.      *)
 EXTENDS Projection, Json
 
-ResJson(r) == [cfg |-> r.cfg, base |-> r.base, x |-> r.x, g |-> r.g, rev |-> r.rev]
+ResJson(r) == [cfg |-> r.cfg, base |-> r.base, x |-> r.x, xy |-> r.xy, g |-> r.g, rev |-> r.rev]
 
 RECURSIVE AccIndex(_, _, _)
 \* index among accepted results of stream position i (0 if rejected)
